@@ -7,6 +7,15 @@ places that need something the public API does not offer are isolated in
 `block_body` (the circuit inside a CircuitGate) and `hidden_digest` (a
 merge-refinement of the BFS key, never judged).
 
+Configuration dict (cfg): {'radixes': [...]} plus optional 'lean' (reduced
+argument sets: fewer cycle indices / regions / sub-circuit shapes), 'long'
+(argument sets for wide, deep circuits: samples of operations, cycles and
+regions), 'max_ops' / 'max_cycles' (growth calls are disabled beyond).
+
+Signatures: transition findings are '<method>/<argument class>/<kind>'
+(e.g. 'unfold/in-range/order-differs'), state findings
+'state-after-<last method>/<view or probe that disagrees>'.
+
 Layout of this module
     1. gate universe and call descriptors (JSON)          -> build_op, build_sub
     2. observation of a real circuit                      -> observe, Obs, Rec
